@@ -123,6 +123,7 @@ type msgTrack struct {
 	delivered string
 	done      bool
 	redeliveredTrack
+	edgeTrack
 }
 
 type sentTx struct {
@@ -1042,6 +1043,11 @@ func (m *mon) realEvidenceOps(h int64) {
 	}
 	if !have && r.Intn(100) < 3 {
 		ec, have = m.hostileCase()
+		if m.p.Calm && strings.HasPrefix(ec.Kind, "bad:") {
+			// calm histories: no control jailings by real transactions (they stay on the forks), so
+			// that the snapshot keeps the composition the stake vector was made for
+			have = false
+		}
 	}
 	if !have {
 		return
@@ -1217,7 +1223,10 @@ func (m *mon) planMessage(q qmsg, h int64) *msgTrack {
 	mt.deliverAt = h + 1 + int64(r.Intn(40))
 	m.refreshShares()
 	classes := []string{"none", "below10", "just-below10", "just-below10", "exact10", "exact10", "low", "low", "mid", "mid", "split", "split", "undelivered-evidence", "undelivered-none",
-		"redelivered", "redelivered", "redelivered"}
+		"redelivered", "redelivered", "redelivered", "edge10", "edge10", "edge10"}
+	if m.p.Calm {
+		classes = append(classes, "edge10", "edge10", "edge10")
+	}
 	mt.class = classes[r.Intn(len(classes))]
 	add := func(vals []int, group int) {
 		for _, v := range vals {
@@ -1292,6 +1301,8 @@ func (m *mon) planMessage(q qmsg, h int64) *msgTrack {
 		mt.deliver = "none"
 	case "redelivered":
 		m.planRedelivered(mt, hp)
+	case "edge10":
+		m.planEdge(mt, hp, h)
 	}
 	return mt
 }
@@ -1406,6 +1417,7 @@ func (m *mon) pigeonMessageOps(h int64) {
 			mt.deliverAt = h + 3 // retry (another validator) if it did not go through
 		}
 		m.redeliverOps(mt, q, h)
+		m.edgeOps(mt, h)
 		var keep []planEv
 		for _, pe := range mt.ev {
 			// pigeons attest what the message carries: phase 1 waits for the error report, phase 2 for the transaction
@@ -1457,6 +1469,8 @@ type prunedMsg struct {
 	stored   map[int]bool // evidence on the stored message at the boundary before the prune block
 	// error report replaced by a transaction report: shares that attested before / after (else "")
 	redelivered string
+	edge        string      // position relative to the 10 % floor when within one share of it (floorEdge)
+	x10         sdkmath.Int // 10*votes - total
 }
 
 func (m *mon) checkBlock(pre, post obs, br *chain.BlockResult) {
@@ -1558,6 +1572,7 @@ func (m *mon) checkPrune(pre, post obs, newly []int) {
 		}
 		m.noteRedelivered(pm, shares)
 		pm.below10 = pm.votes.MulRaw(10).LT(pm.total)
+		m.noteFloorEdge(pm)
 		switch {
 		case pm.votes.IsZero():
 			pm.bucket = "0%"
@@ -1597,7 +1612,7 @@ func (m *mon) checkPrune(pre, post obs, newly []int) {
 			allBelow = false
 		}
 		m.rec.Eval(int64(len(pm.attested)) + 1)
-		m.rec.Distinct(fmt.Sprintf("prune|%s|%s|%s|att=%d|jailed=%d|n=%d", dk, pm.redelivered, pm.bucket, len(pm.attested), len(newly), len(pruned)))
+		m.rec.Distinct(fmt.Sprintf("prune|%s|%s|%s%s|att=%d|jailed=%d|n=%d", dk, pm.redelivered, pm.bucket, edgeKey(pm), len(pm.attested), len(newly), len(pruned)))
 		dbg("h=%d pruned %s|%d delivered=%s bucket=%s attested=%v votes=%s/%s newly=%v", h, pm.q.queue, pm.q.id, dk, pm.bucket, pm.attested, pm.votes, pm.total, newly)
 	}
 	if len(newly) == 0 {
@@ -1612,7 +1627,7 @@ func (m *mon) checkPrune(pre, post obs, newly []int) {
 		}
 		sort.Strings(att)
 		d := map[string]any{"queue": pm.q.queue, "id": pm.q.id, "added_at": pm.q.addedAt, "delivered": pm.q.delivered, "evidence_from": att,
-			"attested_shares": pm.votes.String(), "snapshot_total_shares": pm.total.String(), "bucket": pm.bucket,
+			"attested_shares": pm.votes.String(), "snapshot_total_shares": pm.total.String(), "attested_shares_x10_minus_total": pm.x10.String(), "bucket": pm.bucket,
 			"evidence_on_stored_message_before_prune_block": names(m, pm.stored)}
 		if pm.redelivered != "" {
 			d["evidence_accepted_after_error_report"] = names(m, pm.mt.before)
